@@ -413,6 +413,25 @@ def shutdown_family(ctx):
     return viols, stats, trace
 
 
+def plan_family(ctx):
+    """for C08 (every plan handed out through SyncGroup is valid and complete): the leaderless corpus on the real consumer
+    group - the partition list the group leader feeds the strategy must contain every partition of the topic, also the ones
+    without a leader. Returns (violations of sync_plan_complete, stats dict, trace path)."""
+    cases = os.path.join(ctx.scratch, "c07_plan_cases.ndjson")
+    scs = leaderless_scenarios()
+    with open(cases, "w") as f:
+        for sc in scs:
+            f.write(json.dumps(sc, separators=(",", ":")) + "\n")
+    trace, sums, executed = replay(ctx, cases, len(scs), 8, 400, "grpplan")
+    rs = ctx.tlc_trace("GroupTrace", "GroupTrace.cfg", trace, shards=2, timeout=600, name="grpplantrace")
+    viols, stats = collect(ctx, rs, trace, len(scs))
+    viols = [v for v in viols if v["clause"] == "sync_plan_complete"]
+    evs = vlib.read_ndjson(trace)
+    stats = {"scenarios": len(scs), "sync_plans_checked": sum(1 for e in evs if e["ev"] == "sync_plan"),
+             "scenario_ids": [sc["id"] for sc in scs]}
+    return viols, stats, trace
+
+
 def final_commit_cause(head, mine):
     """why the highest mark of a partition was not carried by a commit: names the known cause when, for EVERY partition
     whose highest mark stayed uncommitted, the committed offset fetched for this session was out of range and no mark
